@@ -1089,8 +1089,8 @@ func c07NextIsOneAtomicStep(p *Prog, r *Report, rule string) {
 		if u, ok := e.(*ast.UnaryExpr); ok && u.Op == token.AND {
 			e = ast.Unparen(u.X)
 		}
-		v, ok := objOf(info, e).(*types.Var)
-		if !ok || v.Parent() != scope {
+		v, ok := objOfSel(info, e).(*types.Var)
+		if !ok || (!v.IsField() && v.Parent() != scope) {
 			return false
 		}
 		t := v.Type().String()
